@@ -133,7 +133,14 @@ def sfOf? (n : Nat) : Option SpreadingFactor :=
   if n = 5 then some ._5 else if n = 6 then some ._6 else if n = 7 then some ._7 else if n = 8 then some ._8
   else if n = 9 then some ._9 else if n = 10 then some ._10 else if n = 11 then some ._11
   else if n = 12 then some ._12 else none
-def bwOf? (hz : Nat) : Option Bandwidth := Bandwidth.all.find? (fun b => b.hz == (hz : Int))
+def bwOf? (hz : Nat) : Option Bandwidth :=
+  -- op lines name a bandwidth by the datasheet's figure in Hz (the C13 harness's own table, legacy replays)
+  -- or by the crate's current `hz()`
+  match hz with
+  | 7810 => some ._7KHz | 10420 => some ._10KHz | 15630 => some ._15KHz | 20830 => some ._20KHz
+  | 31250 => some ._31KHz | 41670 => some ._41KHz | 62500 => some ._62KHz | 125000 => some ._125KHz
+  | 250000 => some ._250KHz | 500000 => some ._500KHz
+  | _ => Bandwidth.all.find? (fun b => b.hz == (hz : Int))
 def crOf? (d : Nat) : Option CodingRate :=
   if d = 5 then some ._4_5 else if d = 6 then some ._4_6 else if d = 7 then some ._4_7 else if d = 8 then some ._4_8 else none
 def tcxoOf? (k : Nat) : Option TcxoCtrlVoltage := TcxoCtrlVoltage.all.find? (fun t => t.value == (k : Int))
@@ -297,7 +304,14 @@ def sfOf? (n : Nat) : Option SpreadingFactor :=
   if n = 5 then some ._5 else if n = 6 then some ._6 else if n = 7 then some ._7 else if n = 8 then some ._8
   else if n = 9 then some ._9 else if n = 10 then some ._10 else if n = 11 then some ._11
   else if n = 12 then some ._12 else none
-def bwOf? (hz : Nat) : Option Bandwidth := Bandwidth.all.find? (fun b => b.hz == (hz : Int))
+def bwOf? (hz : Nat) : Option Bandwidth :=
+  -- op lines name a bandwidth by the datasheet's figure in Hz (the C13 harness's own table, legacy replays)
+  -- or by the crate's current `hz()`
+  match hz with
+  | 7810 => some ._7KHz | 10420 => some ._10KHz | 15630 => some ._15KHz | 20830 => some ._20KHz
+  | 31250 => some ._31KHz | 41670 => some ._41KHz | 62500 => some ._62KHz | 125000 => some ._125KHz
+  | 250000 => some ._250KHz | 500000 => some ._500KHz
+  | _ => Bandwidth.all.find? (fun b => b.hz == (hz : Int))
 def crOf? (d : Nat) : Option CodingRate :=
   if d = 5 then some ._4_5 else if d = 6 then some ._4_6 else if d = 7 then some ._4_7 else if d = 8 then some ._4_8 else none
 
